@@ -303,6 +303,48 @@ def r_dep_record(prog, rep):
     r.check(has(st, "request.taskInfo", True), "executeTasks|only-task-requests", "", "dependency recorded for a request without a task", f, d)
 
 
+def finished_take(prog, ex):
+    """where executeTasks takes a completion off finishedTaskInfos: directly, or through a small helper of the engine that pops under the queue
+    mutex and returns the entry (null when the queue was empty).  -> dict(site=node in ex, pop=the pop call, fn=function holding the pop,
+    locked=bool, helper_ok=bool) or None"""
+    Q = "finishedTaskInfos"
+    direct = [c for c in ex.calls() if c.get("k") == "call" and (c.get("fn") or "").split("::")[-1].startswith("pop") and "obj" in c and expr_plain(c.child("obj")) == Q]
+    if len(direct) == 1:
+        ls = LockSets(ex)
+        return dict(site=direct[0], pop=direct[0], fn=ex, locked="finishedTaskInfosMutex" in (ls.held_at_node(direct[0]) or set()), helper_ok=True)
+    if direct:
+        return None
+    for c in ex.calls():
+        g = prog.functions.get(c.get("fk")) if c.get("fk") else None
+        if g is None or g is ex or g.is_lambda or not qmatch(g.cls, ENGINE):
+            continue
+        pops = [x for x in g.calls() if x.get("k") == "call" and (x.get("fn") or "").split("::")[-1].startswith("pop") and "obj" in x and expr_plain(x.child("obj")) == Q]
+        if len(pops) != 1:
+            continue
+        ls = LockSets(g)
+        bf = BranchFacts(g, kill="assign")
+        pp = cfg.pos_of(g, pops[0])
+        ok = True
+        for rt in [n for n in g.nodes if n.get("k") == "return"]:
+            after_pop = cfg.path_exists(g, pp, lambda p, e, t=cfg.pos_of(g, rt): p == t) is not None
+            isnull = core(rt.child("e")) is not None and core(rt.child("e")).get("k") == "null"
+            if after_pop:
+                # returns the entry that was the back of the queue
+                v = core(rt.child("e"))
+                src = None
+                if v is not None and v.get("k") == "ref":
+                    for d in g.nodes:
+                        if d.get("k") == "decl":
+                            for vv in d.get("vars", []):
+                                if vv.get("did") == v.get("did") and "init" in vv:
+                                    src = expr_plain(g.nodes[vv["init"]])
+                ok = ok and not isnull and src == Q + ".back()"
+            else:
+                ok = ok and isnull and has(facts_at(bf, rt), Q + ".empty()", True)
+        return dict(site=c, pop=pops[0], fn=g, locked="finishedTaskInfosMutex" in (ls.held_at_node(pops[0]) or set()), helper_ok=ok)
+    return None
+
+
 def r_discovered_append(prog, rep):
     r = rep.rule("R-DISCOVERED-APPEND",
                  "discovered dependencies are appended to the rule's dependency list on every finished task, before the "
@@ -320,9 +362,10 @@ def r_discovered_append(prog, rep):
         return
     ok = expr_str(app[0].child("obj")).endswith("ruleInfo->result.dependencies") and "discoveredDependencies" in expr_str(arg_nodes(app[0])[0])
     r.check(ok, "executeTasks|append-roles", "", "append does not add taskInfo->discoveredDependencies to the rule's dependencies", f, app[0])
-    pops = [c for c in f.calls() if (c.get("fn") or "").split("::")[-1].startswith("pop") and "obj" in c and expr_str(c.child("obj")) == "finishedTaskInfos"]
-    if not pops:
+    ft = finished_take(prog, f)
+    if ft is None:
         raise AnalysisBroken("executeTasks: finished task pop not found")
+    pops = [ft["site"]]
     apos = cfg.pos_of(f, app[0])
     w = cfg.path_exists(f, cfg.pos_of(f, pops[0]), lambda p, e, sp=cfg.pos_of(f, sr[0]): p == sp, avoid=lambda p, e: p == apos)
     r.check(w is None, "executeTasks|append-before-db-write", "", "result can be persisted without its discovered dependencies", f, sr[0])
@@ -336,8 +379,14 @@ def r_discovered_append(prog, rep):
     pb = g.calls("DependencyKeyIDs::push_back")
     ok = len(pb) == 1 and "discoveredDependencies" in expr_str(pb[0].child("obj"))
     if ok:
-        kid = [v for d in g.nodes if d.get("k") == "decl" for v in d["vars"] if "init" in v and "getKeyID(key)" in expr_str(g.nodes[v["init"]])]
-        ok = bool(kid) and mentions(arg_nodes(pb[0])[0], {kid[0]["did"]})
+        # the recorded id derives from the `key` parameter through getKeyID (directly or through a local)
+        from sa.flow import taint_closure, param_did
+        t = taint_closure(g, {param_did(g, "key")})
+        a0 = arg_nodes(pb[0])[0]
+        via = [x for x in g.calls() if (x.get("fn") or "").endswith("getKeyID") and mentions(x, t)]
+        ok = mentions(a0, t) and bool(via) and (any(x is via[0] for x in a0.walk()) or any(
+            v.get("did") is not None and mentions(a0, {v["did"]}) and any(x is via[0] for x in g.nodes[v["init"]].walk())
+            for d in g.nodes if d.get("k") == "decl" for v in d["vars"] if "init" in v))
     r.check(ok, "taskDiscoveredDependency|records-given-key", "", "discovered dependency does not record the key it was given", g)
 
 
@@ -435,14 +484,25 @@ def r_singleuse_bits(prog, rep):
         g = prog.fn(D + "::" + meth)
         # (singleUseFlag << 1) | orderOnlyFlag
         ors = [n for n in g.nodes if n.get("k") == "bin" and n["op"] in ("|", "+")]
+        env_ = {}
+        if not ors:
+            # the packing may sit in a small static helper: `flags[n] = packFlags(orderOnlyFlag, singleUseFlag)`
+            for c_ in g.calls():
+                h_ = prog.functions.get(c_.get("fk")) if c_.get("fk") else None
+                if h_ is not None and h_ is not g and h_.cls == g.cls and [n for n in h_.nodes if n.get("k") == "bin" and n["op"] in ("|", "+")]:
+                    ors = [n for n in h_.nodes if n.get("k") == "bin" and n["op"] in ("|", "+")]
+                    env_ = {p_["n"]: expr_str(core(a_)) for p_, a_ in zip(h_.params, arg_nodes(c_)) if a_ is not None}
+                    break
         ok = False
         if len(ors) == 1:
             l, rr = core(ors[0].child("l")), core(ors[0].child("r"))
             def sh(x):
                 x = core(x)
                 if x.get("k") == "bin" and x["op"] == "<<":
-                    return (expr_str(core(x.child("l"))), core(x.child("r")).get("v"))
-                return (expr_str(x), 0)
+                    nm_ = expr_str(core(x.child("l")))
+                    return (env_.get(nm_, nm_), core(x.child("r")).get("v"))
+                nm_ = expr_str(x)
+                return (env_.get(nm_, nm_), 0)
             parts = dict([sh(l), sh(rr)])
             ok = parts == {"singleUseFlag": 1, "orderOnlyFlag": 0}
         r.check(ok, "%s::%s|flag-bits" % (D, meth), "", "flag byte not built as (singleUse << 1) | orderOnly", g)
@@ -885,9 +945,8 @@ def r_hb_result(prog, rep):
     r.check(ok, "taskIsComplete|writes-before-publish", "%d result writes" % len(writes), "a result field is written after the task was published", f)
     g = efn(prog, "executeTasks")
     sc = g.calls("RuleInfo::setComplete")
-    pops = [c for c in g.calls() if (c.get("fn") or "").split("::")[-1].startswith("pop") and expr_str(c.child("obj")) == "finishedTaskInfos"]
-    ls = LockSets(g)
-    ok = len(pops) == 1 and "finishedTaskInfosMutex" in (ls.held_at_node(pops[0]) or set()) and bool(sc)
+    ft = finished_take(prog, g)
+    ok = ft is not None and ft["locked"] and ft["helper_ok"] and bool(sc)
     r.check(ok, "executeTasks|pop-under-lock", "", "finished task popped without the mutex", g)
 
 
@@ -1023,17 +1082,20 @@ def r_didwork(prog, rep):
             w = cfg.path_exists(f, dpos, lambda p, e, cp=cfg.pos_of(f, c): p == cp, avoid=sets)
             r.check(w is None, "executeTasks|didWork|%s" % label, "", "an item is processed without recording that work was done", f, c)
     waits = [c for c in f.calls() if (c.get("fn") or "").split("::")[-1] == "wait" and "finishedTaskInfosCondition" in expr_str(c.child("obj"))]
-    # the whole wait branch sets didWork, whether or not it actually waited
-    blk = [b for b in f.blocks.values() if b.cond() is not None and "numOutstandingUnfinishedTasks" in expr_str(b.cond()) and b.term["cls"] == "IfStmt"]
-    ok = len(blk) == 1
+    # the whole wait branch sets didWork, whether or not it actually waited: once the engine has taken the queue lock in order to wait (the
+    # unique_lock that the wait uses), it cannot reach the cycle resolver in the same iteration without having recorded work
+    ok = len(waits) == 1
     if ok:
-        s = blk[0].succs[0]
-        cyc = [b for b in f.blocks.values() if b.cond() is not None and b.term["cls"] == "IfStmt" and expr_str(core(b.effective_cond())) in ("(!didWork)",) and b is not blk[0]]
-        ok = len(cyc) == 1
+        lk = arg_nodes(waits[0])[0]
+        lk_did = strip_casts(lk).get("did") if lk is not None else None
+        ldecl = [d for d in f.nodes if d.get("k") == "decl" and any(v.get("did") == lk_did for v in d.get("vars", []))]
+        rcs = f.calls(ENGINE + "::resolveCycle")
+        ok = len(ldecl) == 1 and lk_did is not None and bool(rcs)
         if ok:
-            tp = cfg.term_pos(f, cyc[0].id)
-            w = cfg.path_exists(f, (s, -1), lambda p, e: p == tp, avoid=sets)
-            ok = w is None
+            lp = cfg.pos_of(f, ldecl[0])
+            for rc_ in rcs:
+                w = cfg.path_exists(f, lp, lambda p, e, t=cfg.pos_of(f, rc_): p == t, avoid=sets)
+                ok = ok and w is None
     r.check(ok, "executeTasks|didWork|wait-branch", "", "the wait branch can fall through to cycle detection without didWork", f)
     bf = BranchFacts(f, kill="assign")
     for w_ in waits:
@@ -1080,7 +1142,13 @@ def r_cycle_trigger(prog, rep):
         ok = bool(lst) and mentions(arg_nodes(cd[0])[0], {lst[0]["did"]})
         rets = [n for n in g.nodes if n.get("k") == "return"]
         after = [n for n in rets if cfg.path_exists(g, cfg.pos_of(g, cd[0]), lambda p, e, rp=cfg.pos_of(g, n): p == rp) is not None]
-        ok = ok and len(after) == 1 and core(after[0].child("e")).get("v") is False
+        okr = len(after) >= 1
+        for n_ in after:
+            e_ = core(n_.child("e"))
+            okr = okr and (e_.get("v") is False or (e_.get("k") == "ref" and (expr_plain(e_), False) in facts_at(bg, n_)) or
+                           # a single `return didBreak;` reached on both outcomes: fine as long as the reporting arm is the "not broken" one
+                           (e_.get("k") == "ref" and has(facts_at(bg, cd[0]), expr_plain(e_), False)))
+        ok = ok and okr
     r.check(ok, "resolveCycle|report-found-cycle-then-fail", "", "cycleDetected is not given the list findCycle produced, or the call does not fail afterwards", g)
     ls = LockSets(g)
     held = ls.held_at_node(fc[0]) if fc else set()
@@ -1215,8 +1283,14 @@ def r_state_order(prog, rep):
         r.check(ok, "RuleInfo::%s|tests-own-state" % h, "", "%s tests %s" % (h, sorted(got)), f)
     f = prog.fn("RuleInfo::isInProgress")
     calls = set((c.get("fn") or "").split("::")[-1] for c in f.calls())
-    r.check(calls == {"isInProgressWaiting", "isInProgressComputing"} and any(n.get("k") == "bin" and n["op"] == "||" for n in f.nodes), "RuleInfo::isInProgress|either", "",
-            "isInProgress is not (waiting || computing)", f)
+    tested = set({"isInProgressWaiting": "InProgressWaiting", "isInProgressComputing": "InProgressComputing"}.get(c_, c_) for c_ in calls)
+    for n in f.nodes:
+        if n.get("k") == "bin" and n["op"] == "==" and any(x.get("k") == "member" and x.get("n") == "state" for x in n.walk()):
+            tested |= set(x.get("n") for x in n.walk() if x.get("k") == "ref" and x.get("dk") == "enumconst")
+    rets_ = [n for n in f.nodes if n.get("k") == "return"]
+    r.check(tested == {"InProgressWaiting", "InProgressComputing"} and len(rets_) == 1 and any(n.get("k") == "bin" and n["op"] == "||" for n in f.nodes) and
+            not any(n.get("k") == "bin" and n["op"] in ("&&", "!=") for n in f.nodes) and not any(n.get("k") == "un" and n.get("op") == "!" for n in f.nodes),
+            "RuleInfo::isInProgress|either", "", "isInProgress is not (waiting || computing)", f)
     f = prog.fn("RuleInfo::isScanned")
     cmpn = [n for n in f.nodes if n.get("k") == "bin" and n["op"] in (">", "<", ">=", "<=")]
     ok = len(cmpn) == 1 and canon(cmpn[0]) in ("(cast<int>(IsScanning) < cast<int>(state))", "(IsScanning < state)") or \
@@ -1363,10 +1437,11 @@ def r_outstanding_count(prog, rep):
     # -- : once per pop_back
     pops = [(f, n) for f, n, op in removes if op == "pop_back"]
     decs = [(f, n) for f, n, op in writes if op == "--"]
-    ok = len(pops) == 1 and pops[0][0] is ex and all(f is ex for f, _ in decs)
+    ft = finished_take(prog, ex)
+    ok = len(pops) == 1 and ft is not None and ft["pop"] is pops[0][1] and ft["helper_ok"] and all(f is ex for f, _ in decs)
     w1 = w2 = None
     if ok:
-        pp = ex.elem_pos()[pops[0][1]["id"]]
+        pp = ex.elem_pos()[ft["site"]["id"]]
         dps = set(ex.elem_pos()[n["id"]] for _f, n in decs)
         # the popped pointer: null-initialised, assigned only from finishedTaskInfos.back() right before the pop; the null test
         # `if (!taskInfo) break;` therefore splits "nothing popped" (break) from "one completion taken" (its false successor)
@@ -1383,6 +1458,11 @@ def r_outstanding_count(prog, rep):
         src_ok = len(taken) == 1 and bool(decl0) and len([a for a in asg if expr_plain(a.child("r")) == Q + ".back()"]) == 1 and \
             all(expr_plain(a.child("r")) in (Q + ".back()", "readyTaskInfos.front()") for a in asg) and \
             any(ex.elem_pos()[a["id"]][0] == pp[0] for a in asg)
+        if not src_ok and ft["fn"] is not ex:
+            # `TaskInfo* taskInfo = takeFinishedTaskInfo();` -- the helper (validated above) returns null exactly when nothing was popped
+            declh = [v for n in ex.nodes if n.get("k") == "decl" for v in n.get("vars", []) if v.get("n") == "taskInfo" and "init" in v and
+                     any(x is ft["site"] for x in ex.nodes[v["init"]].walk())]
+            src_ok = len(taken) == 1 and len(declh) == 1 and not [a for a in asg if expr_plain(a.child("r")) != "readyTaskInfos.front()"]
         w1 = w2 = None
         if src_ok:
             tk = list(taken)[0]
@@ -1397,7 +1477,25 @@ def r_outstanding_count(prog, rep):
     # -= : bulk discard in the cancellation drain
     subs = [(f, n) for f, n, op in writes if op == "-="]
     clears = [(f, n) for f, n, op in removes if op == "clear"]
-    ok = len(subs) == 1 and subs[0][0] is cr and expr_plain(subs[0][1].child("r")) == Q + ".size()" and all(f is cr for f, _ in clears) and len(clears) == 2
+    def amount_is_queue_size(n):
+        """`Q.size()` or a local initialised with it, with no change to the queue between the initialisation and the subtraction"""
+        if expr_plain(n) == Q + ".size()":
+            return True
+        c_ = core(n)
+        if c_ is not None and c_.get("k") == "ref":
+            for d in cr.nodes:
+                if d.get("k") == "decl":
+                    for v in d.get("vars", []):
+                        if v.get("did") == c_.get("did") and "init" in v and expr_plain(cr.nodes[v["init"]]) == Q + ".size()":
+                            dp = cfg.pos_of(cr, d)
+                            up = cr.elem_pos().get(subs[0][1]["id"])
+
+                            def mut(p_, e_):
+                                x = cfg.elem_node(cr, e_)
+                                return x is not None and x.get("k") == "call" and "obj" in x and expr_plain(x.child("obj")) == Q and not x.get("cm")
+                            return dp is not None and cfg.path_exists(cr, dp, mut, avoid=lambda p_, e_: p_ == up) is None
+        return False
+    ok = len(subs) == 1 and subs[0][0] is cr and amount_is_queue_size(subs[0][1].child("r")) and all(f is cr for f, _ in clears) and len(clears) == 2
     if ok:
         ps = cr.elem_pos()[subs[0][1]["id"]]
         bf = BranchFacts(cr, kill="assign")
@@ -1546,14 +1644,22 @@ def r_waitcount(prog, rep):
     sinks = {"pausedInputRequests": "inputRequests", "requestedBy": "finishedInputRequests"}
     for src, dst in sinks.items():
         moved = False
+        from sa.flow import taint_closure
         for f in engine_functions(prog):
+            # everything in f that derives from the parked container: loop variables over it, iterators / references / copies initialised from it
+            seeds = set()
+            for n in f.nodes:
+                if n.get("k") == "forrange" and src in expr_str(n.child("range")) and n.get("vardid") is not None:
+                    seeds.add(n["vardid"])
+                if n.get("k") == "decl":
+                    for v in n.get("vars", []):
+                        if "init" in v and src in expr_str(f.nodes[v["init"]]) and v.get("did") is not None:
+                            seeds.add(v["did"])
+            t = taint_closure(f, seeds) if seeds else set()
             for c in f.calls():
                 nm = (c.get("fn") or "").split("::")[-1]
-                if nm in ("insert", "push_back") and "obj" in c and expr_plain(c.child("obj")).endswith(dst) and any(src in expr_str(a) for a in arg_nodes(c) if a is not None):
-                    moved = True
-            for n in f.nodes:
-                if n.get("k") == "forrange" and src in expr_str(n.child("range")) and any(
-                        x.get("k") == "call" and (x.get("fn") or "").split("::")[-1] == "push_back" and "obj" in x and expr_plain(x.child("obj")).endswith(dst) for x in n.walk()):
+                if nm in ("insert", "push_back", "emplace_back") and "obj" in c and expr_plain(c.child("obj")).endswith(dst) and \
+                        any(a is not None and (src in expr_str(a) or mentions(a, t)) for a in arg_nodes(c)):
                     moved = True
         r.check(moved, "%s|drained-into-%s" % (src, dst), "", "requests parked in %s are never moved to %s" % (src, dst))
 
@@ -1582,9 +1688,11 @@ def r_cancel_delegates(prog, rep):
         r.check(len(tells) == 1 and has(facts_at(bf, tells[0]), "buildCancelled", True), "addCancellationDelegate|late-registrant-told", "",
                 "a delegate registering after the cancellation is not told at once", add)
     lc = LockSets(cb)
-    loop = [n for n in cb.nodes if n.get("k") == "forrange" and "cancellationDelegates" in expr_str(n.child("range"))]
+    tells_cb = [c for c in cb.calls() if (c.get("fn") or "").endswith("CancellationDelegate::buildCancelled")]
+    loop = [n for n in cb.nodes if n.get("k") in ("forrange", "for", "while") and tells_cb and any(x is tells_cb[0] for x in n.walk()) and
+            "cancellationDelegates" in (expr_str(n.child("range")) if n.get("k") == "forrange" else " ".join(expr_str(y) for y in n.walk()))]
     sets = [n for n in cb.nodes if n.get("k") in ("bin", "call") and n.get("op") == "=" and expr_plain(n.child("l") if n.get("k") == "bin" else n.child("obj")) == "buildCancelled"]
-    ok = len(loop) == 1 and len(sets) == 1 and M in (lc.held_at_node(sets[0]) or set()) and \
+    ok = len(loop) >= 1 and len(sets) == 1 and M in (lc.held_at_node(sets[0]) or set()) and \
         all(M in (lc.held_at_node(c) or set()) for c in cb.calls() if (c.get("fn") or "").endswith("CancellationDelegate::buildCancelled"))
     if ok:
         # the same guard object covers both: exactly one lock acquisition in the function
@@ -1638,7 +1746,28 @@ def r_dfs_pairing(prog, rep):
         ok0 = any(x.get("k") == "call" and (x.get("fn") or "").endswith("getRuleInfoForKey") and any(y.get("k") == "ref" and y.get("n") == "buildKey" for y in x.walk()) for x in sub)
     r.check(ok0, "findCycle|starts-at-requested-key", "", "the search does not start at the rule of the requested key", f)
     inv = [c for c in f.calls("push_back") if "predecessorGraph" in expr_str(c.child("obj"))]
-    oki2 = len(inv) == 1 and "succ" in expr_plain(inv[0].child("obj")) and expr_plain(arg_nodes(inv[0])[0]) == "node"
+    # predecessorGraph[<a successor of entry>].push_back(<the key of entry>): the subscript derives from entry.second (loop variable, index or
+    # alias), the pushed value from entry.first
+    oki2 = len(inv) == 1
+    if oki2:
+        from sa.flow import taint_closure
+        seeds_s, seeds_n = set(), set()
+        for n in f.nodes:
+            if n.get("k") == "forrange" and n.get("vardid") is not None and "entry.second" in expr_plain(n.child("range")):
+                seeds_s.add(n["vardid"])
+            if n.get("k") == "decl":
+                for v in n.get("vars", []):
+                    if "init" in v and v.get("did") is not None:
+                        t_ = expr_plain(f.nodes[v["init"]])
+                        if "entry.second" in t_:
+                            seeds_s.add(v["did"])
+                        if t_.replace(" ", "") in ("entry.first", "(entry.first)"):
+                            seeds_n.add(v["did"])
+        ts, tn = taint_closure(f, seeds_s) if seeds_s else set(), taint_closure(f, seeds_n) if seeds_n else set()
+        sub = inv[0].child("obj")
+        val = arg_nodes(inv[0])[0]
+        oki2 = (mentions(sub, ts) or "entry.second" in expr_plain(sub)) and not mentions(sub, tn) and \
+            (mentions(val, tn) or expr_plain(val) == "entry.first") and not mentions(val, ts)
     r.check(oki2, "findCycle|graph-inverted", "", "the predecessor graph is not the inverse of the successor graph", f)
     rets = [n for n in f.nodes if n.get("k") == "return"]
     r.check(len(rets) == 1 and expr_plain(rets[0].child("e")).strip("()") in ("cycleList", "vector(cycleList)", "std::move(cycleList)") or
